@@ -73,6 +73,8 @@ def setCfg (st : St) (kv : String) : Option St :=
     | "client.prewriteSendsAll" => if v == "true" then some st else none       -- only this shape is modelled
     | "client.commitSendsAll" => if v == "true" then some st else none         -- only this shape is modelled
     | "perc.rollbackChecksOwner" => if v == "true" then some st else none        -- only this shape is modelled
+    | "oracle.readMarkDoneOnce" => if v == "true" then some st else none       -- only this shape is modelled
+    | "oracle.historyPrunedByReadMarkOnly" => if v == "true" then some st else none
     | "oracle.readTsWaitsUnbounded" => if v == "true" then some st else none   -- only this shape is modelled
     | "txn.trackGet" => do
       let b ← boolOfString? v; pure { st with rcfg := { st.rcfg with trackGet := b } }
@@ -418,6 +420,7 @@ def step' (st : St) (toks : List String) : St × String :=
     | some j => ({ st with readers := st.readers.filter (· ≠ j) }, "ok\t*")
     | none => (st, "bad-op")
   | ["e.other"] => (st, if st.stalled then "bad-op" else "ok\t*")
+  | ["e.others", _] => (st, if st.stalled then "bad-op" else "ok\t*")
   | ["e.stall"] => ({ st with stalled := true }, "ok\t*")
   | ["e.unstall"] =>
     -- the stalled commits are applied in timestamp order, then the waiting transactions begin
